@@ -1,25 +1,202 @@
 """Property -> runs table: which harness entry points, feature sets and IR profiles decide each property,
-with the bounds stated for the evidence files."""
+with the bounds stated for the evidence files.
+
+Feature sets (harness features -> rust-cc features, always with `std`):
+  fa = finalization,auto-collect (rust-cc's default minus derive)   faw = + weak-ptrs   fawc = + cleaners
+  none = neither finalization nor auto-collect                      w = weak-ptrs only  a = auto-collect only
+IR profiles: dev = opt-level 1, debug assertions and overflow checks on; release = opt-level 3, both off."""
+
+Q = ('quick', 'thorough')
+T = ('thorough',)
 
 
-def R(entry, features='fa', profile='dev', tiers=('quick', 'thorough'), **kw):
+def R(entry, features='fa', profile='dev', tiers=Q, **kw):
     d = dict(entry=entry, features=features, profile=profile, tiers=tiers)
     d.update(kw)
     return d
 
 
-def both(entry, features='fa', **kw):
+def both(entry, features='fa', tiers=Q, **kw):
     """dev-like and release-like IR of the same entry"""
-    return [R(entry, features, 'dev', **kw), R(entry, features, 'release', **kw)]
+    return [R(entry, features, 'dev', tiers, **kw), R(entry, features, 'release', tiers, **kw)]
 
+
+def twin(entry, features='fa'):
+    return [R(entry, features, 'dev', Q, twin=True)]
+
+
+GRAPH_BOUNDS = ("object graphs of N<=3 nodes (N<=2 where every slot target, buffering history, release mask, phantom count and a "
+                "second-round mutation are all symbolic at once), 1 traced slot per node (2 in the thorough tier) plus an untraced owning slot "
+                "(thorough), at most two collect-until-quiescent phases per path; phantom strong counts 0..16000 are solver variables")
+OUTSIDE_COMMON = "larger graphs and longer histories than the bounds; the nightly/no-std configuration; allocation failure; OS threads"
+
+TRACE_ENTRIES = (['h_trace_tuple%d' % i for i in range(1, 13)] + ['h_trace_array%d' % i for i in (0, 1, 2, 3, 32)] +
+                 ['h_trace_vec', 'h_trace_boxed_slice', 'h_trace_option', 'h_trace_result', 'h_trace_box', 'h_trace_manuallydrop',
+                  'h_trace_assertunwindsafe', 'h_trace_refcell', 'h_trace_vec_option', 'h_trace_option_box_tuple', 'h_trace_refcell_vec',
+                  'h_trace_tuple_vec_option', 'h_trace_array_option', 'h_trace_vec_manuallydrop', 'h_trace_result_vec'])
 
 PROPS = {}
 
 PROPS['C01'] = dict(
-    bounds="graphs of N<=3 objects with 1-2 traced slots (+1 untraced owning slot), every slot target symbolic; symbolic buffering "
-           "history per object; symbolic release mask; phantom strong counts 0..16000 as solver variables; one further symbolic "
-           "mutation and a second collection",
-    outside="N>3 (thorough: N<=4), more than two collections per path, the nightly/no-std configuration, allocation failure",
-    runs=both('h_graph_n2', covers=[1, 2]) + both('h_graph_n3', covers=[1, 2]) + both('h_graph_n3_untraced', covers=[1])
-         + [R('h_graph_twin', twin=True)],
+    bounds=GRAPH_BOUNDS, outside=OUTSIDE_COMMON,
+    runs=both('h_graph_n2', covers=[1, 2]) + [R('h_graph_n2', 'none', covers=[1, 2]), R('h_graph_n2', 'faw', 'release', covers=[1, 2])]
+         + [R('h_graph_n3', covers=[1, 2]), R('h_graph_n3', 'fa', 'release', T, covers=[1, 2])]
+         + [R('h_fin_n3', covers=[1])]
+         + both('h_graph_n3_untraced', tiers=T, covers=[1]) + [R('h_graph_n3_s2', tiers=T, covers=[1])]
+         + twin('h_graph_twin'),
+)
+PROPS['C02'] = dict(
+    bounds=GRAPH_BOUNDS + "; panic-free programs; quiescence must be reached within 3-4 collect_cycles() calls (obligation x23)",
+    outside=OUTSIDE_COMMON,
+    runs=[R('h_graph_n3', 'fa', 'release', covers=[1, 2]), R('h_graph_n2', 'none', 'release', covers=[1, 2]), R('h_graph_n2', 'faw', covers=[1, 2])]
+         + [R('h_fin_n2', covers=[1, 2]), R('h_fin_n3_stash', covers=[1]), R('h_fin_weak_n2', 'faw', covers=[1])]
+         + [R('h_fin_n2', 'fa', 'release', T, covers=[1, 2]), R('h_graph_n3_untraced', tiers=T, covers=[1])]
+         + twin('h_fin_twin'),
+)
+PROPS['C03'] = dict(
+    bounds="payload grid: sizes {0,1,2,8,24,100/104,128,4096} x alignments {1,2,8,64,4096} (24 instantiations, enumerated), each through 6 symbolic "
+           "release orders (reference counting, cycle + collector, try_unwrap, Weak outliving the box, Weak released first, new_cyclic); "
+           "drop-once / free-once / right-layout are engine-level obligations on every path of the graph and weak families too",
+    outside="sizes above 4 KiB; allocation failure; " + OUTSIDE_COMMON,
+    runs=both('h_layout_grid', 'faw', covers=[1]) + [R('h_layout_grid', 'none', covers=[1]), R('h_layout_zst', 'faw', covers=[1])]
+         + [R('h_graph_n2', 'fa', 'release', covers=[1, 2]), R('h_weak_prog_n2', 'faw', covers=[1, 2]), R('h_unwrap_weak', 'faw', covers=[1, 2])]
+         + [R('h_cyclic', 'faw', covers=[1, 2, 3])]
+         + twin('h_layout_twin', 'faw'),
+)
+PROPS['C04'] = dict(
+    bounds=GRAPH_BOUNDS + "; strong_count() compared with the model count after every operation for ALL phantom counts (one solver variable per object)",
+    outside=OUTSIDE_COMMON,
+    runs=both('h_graph_n2', covers=[1, 2]) + [R('h_graph_n3', 'fa', 'release', covers=[1, 2])]
+         + [R('h_sat_strong', 'faw', covers=[1, 2]), R('h_panic_n2', covers=[1]), R('h_unwrap', covers=[1, 2])]
+         + [R('h_panic_n3_hist', tiers=T, covers=[1])]
+         + twin('h_graph_twin'),
+)
+PROPS['C05'] = dict(
+    bounds="graphs of N<=3 nodes, finalizer behaviour per node symbolic among {none, drop a field, resurrect self, resurrect neighbour, create an object, "
+           "request a collection, release a program-held pointer} (+ upgrade a Weak into a global / into an own field with weak-ptrs); both the "
+           "reference-count path and the collector path; later history of resurrected objects incl. finalize_again",
+    outside=OUTSIDE_COMMON,
+    runs=[R('h_fin_n2', covers=[1, 2]), R('h_fin_n3', 'fa', 'release', covers=[1]), R('h_fin_weak_n2', 'faw', covers=[1])]
+         + [R('h_graph_n2', 'none', covers=[1, 2])]  # finalization off: finalize is never called
+         + [R('h_fin_n3_stash', tiers=T, covers=[1]), R('h_fin_weak_n3', 'faw', tiers=T, covers=[1]), R('h_fin_n2', 'fa', 'release', T, covers=[1, 2])]
+         + twin('h_fin_twin'),
+)
+PROPS['C06'] = dict(
+    bounds=PROPS['C05']['bounds'] + "; termination: a path exceeding 3M IR instructions or 4 collect calls without quiescence is a violation",
+    outside=OUTSIDE_COMMON + "; chains of more than 4 finalizer-released objects",
+    runs=[R('h_fin_n3_stash', covers=[1]), R('h_fin_n2', 'fa', 'release', covers=[1, 2]), R('h_fin_weak_n2', 'faw', covers=[1])]
+         + [R('h_fin_n3', tiers=T, covers=[1]), R('h_fin_weak_n3', 'faw', tiers=T, covers=[1]), R('h_fin_weak_n2', 'faw', 'release', T, covers=[1])]
+         + twin('h_fin_twin'),
+)
+PROPS['C07'] = dict(
+    bounds="graphs of N<=3 nodes; callback kind in {trace, finalize, drop} symbolic, crash index k in 1..8 a solver variable compared against the "
+           "running invocation counter (every crash point is a path); panics during the release (reference-count) phase and during the collection; "
+           "continuation: a further symbolic operation, collections, all safety oracles; new_cyclic closure panics and cleaning-action panics in their families",
+    outside="panics while already unwinding (abort by definition), panics raised by the crate's own guards; " + OUTSIDE_COMMON,
+    runs=both('h_panic_n3', covers=[1, 11, 12, 13]) + [R('h_panic_n2', covers=[1]), R('h_panic_n2', 'none', covers=[1]), R('h_cyclic', 'faw', covers=[1, 2, 3])]
+         + [R('h_panic_n3', 'faw', 'release', covers=[1])]
+         + [R('h_panic_n2_two', tiers=T, covers=[1]), R('h_panic_n3_hist', tiers=T, covers=[1]), R('h_clean_panic', 'fawc', tiers=Q, covers=[1])]
+         + twin('h_panic_twin'),
+)
+PROPS['C08'] = dict(
+    bounds="N<=2 nodes (ring of 3 in the thorough tier): program-held Weaks with symbolic life cycles; weak slots inside nodes pointing to self / next / "
+           "previous; upgrades attempted at top level after every operation and from inside finalizers and destructors (symbolic per node)",
+    outside=OUTSIDE_COMMON,
+    runs=[R('h_weak_prog_n2', 'faw', covers=[1, 2]), R('h_weak_cb_n2', 'faw', covers=[1, 2]), R('h_weak_cb_n2', 'faw', 'release', covers=[1, 2])]
+         + [R('h_weak_cb_n2', 'w', covers=[1]), R('h_unwrap_weak', 'faw', covers=[1, 2]), R('h_clean_n2', 'fawc', tiers=T, covers=[1])]
+         + [R('h_weak_cb_ring3', 'faw', tiers=T, covers=[1, 2])]
+         + twin('h_weak_twin', 'faw'),
+)
+PROPS['C09'] = dict(
+    bounds="N<=2 nodes; 0..2 program-held Weaks per node plus phantom weak counts 0..32000 (solver variables); release of the value by reference "
+           "counting, by the collector and by try_unwrap; re-downgrade after the weak count returned to zero; the side record's allocation is tracked",
+    outside=OUTSIDE_COMMON,
+    runs=both('h_weak_prog_n2', 'faw', covers=[1, 2]) + [R('h_weak_prog_n1', 'faw', covers=[1, 2]), R('h_sat_weak', 'faw', covers=[1, 2])]
+         + [R('h_unwrap_weak', 'faw', covers=[1, 2]), R('h_cyclic', 'faw', covers=[1, 2, 3]), R('h_weak_prog_n2', 'w', covers=[1, 2])]
+         + twin('h_weak_twin', 'faw'),
+)
+PROPS['C10'] = dict(
+    bounds="2 owner nodes, 2 actions of any of 5 kinds (no-op, drop a captured Cc, allocate, upgrade a Weak to owner/neighbour, clean() another "
+           "cleanable) with symbolic owners, or 3 actions of kinds {no-op, clean-other}; symbolic interleaving of clean / Cleanable drop / owner release "
+           "by reference counting or in a cycle; a field dropped right after the Cleaner observes 'exactly once by the time the Cleaner's drop returns'",
+    outside="more than 3 actions per scenario (slot-map growth beyond its initial capacity), slot-map key version wrap-around; " + OUTSIDE_COMMON,
+    assumptions=["liballoc's RawVecInner::{try_allocate_in, grow_amortized, deallocate} (precompiled, not in the IR) are modelled by the engine"],
+    runs=[R('h_clean_n2', 'fawc', covers=[1]), R('h_clean_n2_a3', 'fawc', covers=[1]), R('h_clean_n2_a3', 'fawc', 'release', covers=[1])]
+         + [R('h_clean_n2', 'fawc', 'release', T, covers=[1])]
+         + twin('h_clean_twin', 'fawc'),
+)
+PROPS['C11'] = dict(
+    bounds="after every operation of the graph / try_unwrap / nesting families: allocated_bytes() against the model's live boxes, the buffer walked "
+           "through the hook (cached size == length, links, marks, members are distinct live objects), executions_count() deltas; the exact buffered "
+           "set is predicted for finalizer-free programs of N<=3 nodes",
+    outside=OUTSIDE_COMMON,
+    runs=both('h_buffer_n3', covers=[1]) + [R('h_buffer_n3', 'none', covers=[1]), R('h_unwrap', covers=[1, 2]), R('h_nest_n2', covers=[1])]
+         + [R('h_fin_n2', covers=[1, 2])]
+         + twin('h_graph_twin'),
+)
+PROPS['C12'] = dict(
+    bounds="N=2 nodes; per node the finalizer in {none, collect_cycles(), allocate, probe} and the destructor in {none, collect_cycles(), temporary Cc, probe} "
+           "(probe = try_unwrap and finalize_again on a unique program-held Cc); objects die by plain drop, by an explicit collection or by a collection "
+           "triggered by Cc::new; is_tracing() sampled in every callback",
+    outside=OUTSIDE_COMMON,
+    runs=both('h_nest_n2', covers=[1, 3]) + [R('h_fin_n2', covers=[1, 2]), R('h_nest_n2', 'faw', covers=[1])]
+         + twin('h_nest_twin'),
+)
+PROPS['C13'] = dict(
+    bounds="the unwrapped object optionally owns / is owned by a second object; buffered or not; second real pointer or not; phantom count 0..16000 a "
+           "solver variable (uniqueness decided for all counts); 0..2 Weaks (weak-ptrs); layouts through the C03 grid",
+    outside=OUTSIDE_COMMON,
+    runs=both('h_unwrap', covers=[1, 2]) + both('h_unwrap_weak', 'faw', covers=[1, 2]) + [R('h_unwrap', 'none', covers=[1, 2]), R('h_layout_grid', 'faw', covers=[1])]
+         + [R('h_nest_n2', covers=[1, 3])]
+         + twin('h_unwrap_twin'),
+)
+PROPS['C14'] = dict(
+    bounds="closure behaviour in {plain, save a Weak clone, keep a Weak in the value, allocate, collect_cycles(), save two clones and panic}; collector state in "
+           "{idle, garbage 2-cycle buffered, garbage buffered and its first trace/finalize/drop callback panics}; automatic collection due or disabled",
+    outside=OUTSIDE_COMMON,
+    runs=both('h_cyclic', 'faw', covers=[1, 2, 3]) + [R('h_cyclic', 'fawc', covers=[1, 2, 3]), R('h_layout_grid', 'faw', covers=[1])]
+         + twin('h_cyclic_twin', 'faw'),
+)
+PROPS['C15'] = dict(
+    bounds="trigger kernel: all five inputs full-width solver variables; threshold kernel: one adjust() step from threshold 100*2^j (j<=12 quick, j<=57 thorough, "
+           "decided at its source), allocated bytes a 64-bit solver variable < 2^62, adjustment percent an f64 solver variable in [0,1] (z3 FloatingPoint); "
+           "wiring: 3 (thorough: 4) allocations of two size classes with configuration changes at symbolic points, percent in {0, 0.5, 1}",
+    outside="allocated bytes >= 2^62 (the doubling loop overflows usize there - stated, not claimed), 32-bit targets",
+    runs=[R('h_policy_trigger', covers=[1]), R('h_policy_trigger', 'fa', 'release', covers=[1]), R('h_policy_adjust_small', covers=[1]),
+          R('h_policy_wiring', covers=[1, 2, 3]), R('h_policy_wiring', 'fa', 'release', covers=[1, 2, 3]), R('h_nest_n2', covers=[1])]
+         + [R('h_policy_adjust_full', tiers=T, covers=[1]), R('h_policy_adjust_small', 'fa', 'release', T, covers=[1]), R('h_policy_wiring4', tiers=T, covers=[1])]
+         + twin('h_policy_twin'),
+    budget_s=dict(quick=900, thorough=5400),
+)
+PROPS['C16'] = dict(
+    bounds="strong count 1+n with n a solver variable in 0..16381, one more pointer by clone or upgrade, object finalized or not, with or without a side record; "
+           "weak count 1+m with m in 0..32766, one more Weak by downgrade or clone, value alive or gone; counter-word kernels from arbitrary 16-bit words",
+    outside=OUTSIDE_COMMON,
+    runs=both('h_sat_strong', 'faw', covers=[1, 2]) + both('h_sat_weak', 'faw', covers=[1, 2]) + both('h_counter_kernel', 'faw', covers=[1])
+         + both('h_weak_kernel', 'faw', covers=[1]) + [R('h_sat_strong', 'none', covers=[1, 2])]
+         + twin('h_count_twin', 'faw'),
+)
+PROPS['C17'] = dict(
+    bounds="one generated instantiation per container: tuples 1..12, arrays {0,1,2,3,32}, Vec (len 0..4), boxed slice (0..3), Box, Option, Result, RefCell "
+           "(unborrowed / mutably / shared borrowed), ManuallyDrop, AssertUnwindSafe, 7 two-level nestings, non-owning types; symbolic: variants, "
+           "lengths, borrow state, the position carrying the cycle",
+    outside="arrays with 3<N<32 other than listed; str/Path-like leaf types; " + OUTSIDE_COMMON,
+    assumptions=["liballoc's RawVecInner::{grow_amortized, deallocate} (precompiled, not in the IR) are modelled by the engine"],
+    runs=[R(e, 'fa', 'dev', covers=[1]) for e in TRACE_ENTRIES] + [R('h_trace_nonowning', 'faw', covers=[1]), R('h_finalize_forwarding', covers=[1])]
+         + [R(e, 'fa', 'release', T, covers=[1]) for e in TRACE_ENTRIES] + [R('h_trace_nonowning', 'fawc', tiers=T, covers=[1])]
+         + twin('h_trace_twin'),
+)
+PROPS['C19'] = dict(
+    bounds="single thread; the thread-local destructors registered during the run are executed after the entry point returns (LIFO, as the platform does), "
+           "with a user thread-local holding Ccs registered before or after the collector's own (both relative orders), objects buffered / in a cycle / unique",
+    outside="the independence clause (interleavings of OS threads) is NOT decided; the libc/std thread-exit sequence itself is modelled, not executed",
+    runs=both('h_tls', covers=[1]) + [R('h_tls', 'faw', covers=[1])] + twin('h_tls_twin'),
+)
+PROPS['C20'] = dict(
+    bounds="addresses: the C03 layout grid and a zero-sized payload; forwarding: Eq/PartialEq/PartialOrd/Ord/Hash/Default/From on Cc<T> for T in "
+           "{u32, i16, (i8,u8), [u8;2]} and PartialEq/PartialOrd on Cc<f64> with fully symbolic values (NaN and signed zeros included, z3 FloatingPoint), "
+           "also a Cc compared with its own clone",
+    outside="Debug/Display/Pointer formatting (needs core::fmt internals that are not in the IR) - not claimed; f32",
+    runs=both('h_layout_grid', 'faw', covers=[1]) + both('h_forward_ints', covers=[1]) + both('h_forward_f64', covers=[1]) + [R('h_layout_zst', covers=[1])]
+         + twin('h_layout_twin', 'faw'),
 )
